@@ -480,6 +480,9 @@ func setPath(node any, path []any, v any) any {
 	return node
 }
 
+// prefixFormat: how the prefix of the variables of a load is spelled
+var prefixFormat = "VERIFCFG%d_"
+
 // indexWidth: list indices are numeric segments; a number may be written with leading zeros (EXECUTE_00, EXECUTE_01, ...)
 var indexWidth = 1
 
@@ -522,7 +525,8 @@ type loadResult struct {
 // load writes fileLeaves as YAML file (nil = no file... an empty mapping) and envLeaves as environment variables under a fresh prefix.
 func load(dir string, fileLeaves, envLeaves []leaf, envOrder []int) loadResult {
 	n := loadCounter.Add(1)
-	prefix := fmt.Sprintf("VERIFCFG%d_", n)
+	// (the prefix is the operator's choice - the flag --env-config-prefix -, in whatever case)
+	prefix := fmt.Sprintf(prefixFormat, n)
 	path := ""
 
 	if fileLeaves != nil {
@@ -639,6 +643,9 @@ func TestFileAndEnvironmentAreEquivalent(t *testing.T) {
 		var all []leaf
 
 		leaves(tree, nil, &all)
+
+		prefixFormat = rapid.SampledFrom([]string{"VERIFCFG%d_", "VERIFCFG%d_", "verifcfg%d_", "VerifCfg%d_", "VERIFCFG%d"}).Draw(t, "prefix")
+		vkit.S.LabelIf(prefixFormat != "VERIFCFG%d_", "prefix_not_in_upper_case_or_without_separator")
 
 		indexWidth = rapid.SampledFrom([]int{1, 1, 1, 2, 3}).Draw(t, "widthOfListIndices")
 		vkit.S.LabelIf(indexWidth > 1, "list_indices_with_leading_zeros")
